@@ -1,10 +1,17 @@
 #!/bin/bash
-# recheck_seeds.sh [tier] : runs every kept seeded defect against the current quick check of its property and writes
+# recheck_seeds.sh [tier] [glob] : runs every kept seeded defect against the current quick check of its property and writes
 # /verif/seeded/RECHECK.jsonl (one line per seed: detected or not, first violation line)
-TIER="${1:-quick}"
+TIER="${1:-quick}"; PAT="${2:-*}"
 OUTF=/verif/seeded/RECHECK.jsonl
 : > "$OUTF.tmp"
-for d in /verif/seeded/*/; do
+if [ "$PAT" != "*" ] && [ -f "$OUTF" ]; then
+  # keep the lines of the seeds that are not rechecked now
+  while IFS= read -r line; do
+    n=$(echo "$line" | sed -n 's/^{"seed":"\([^"]*\)".*/\1/p')
+    case "$n" in $PAT) ;; *) echo "$line" >> "$OUTF.tmp";; esac
+  done < "$OUTF"
+fi
+for d in /verif/seeded/$PAT/; do
   name=$(basename "$d")
   [ -f "$d/patch.diff" ] || continue
   pid=$(python3 -c "import json;print(json.load(open('$d/meta.json'))['property'])")
